@@ -212,6 +212,17 @@ func appendUint16(b []byte, i int) []byte {
 	return append(b, byte(i>>8), byte(i))
 }
 
+// fitsLen returns an error if one of the given lengths cannot be represented in a wire
+// length field whose largest value is max.
+func fitsLen(max int, lens ...int) error {
+	for _, n := range lens {
+		if n > max {
+			return fmt.Errorf("field of length [%v] does not fit its length field, max is [%v]", n, max)
+		}
+	}
+	return nil
+}
+
 // isAllASCII will ensure that the given string only uses ascii characters.
 // it will return false if it has anything other than ascii, true, if it's safe ascii.
 func isAllASCII(s string) bool {
